@@ -195,6 +195,12 @@ RegContract(e) ==
             IF XcrValid(p1)
             THEN ok /\ oneI("xsetbv") /\ e.instrs[1].a = ZeroW /\ e.instrs[1].c = OrW(keep(pre), p1)
             ELSE e.k = "panic" /\ none                          \* rejected without writing
+      [] api = "XCr0::update" ->
+            LET nf == AndW(OrW(flags(pre), p1), NotW(p2)) IN
+            IF XcrValid(nf)
+            THEN ok /\ e.r = << flags(pre) >> /\ oneI("xsetbv") /\ e.instrs[1].a = ZeroW
+                    /\ e.instrs[1].c = OrW(keep(pre), nf)
+            ELSE e.k = "panic" /\ none
       [] api = "XCr0::write_raw" -> ok /\ oneI("xsetbv") /\ e.instrs[1].a = ZeroW /\ e.instrs[1].c = p1
       [] api \in {"SS::set_reg", "DS::set_reg", "ES::set_reg", "FS::set_reg", "GS::set_reg"} ->
             ok /\ oneI("mov_to_sreg") /\ e.instrs[1].a = p2 /\ e.instrs[1].c = p1
@@ -273,6 +279,7 @@ Check(e) ==
       [] e.op = "rflags_rt" ->     \* the ID flag (bit 21) written is the ID flag read back
             /\ Bit(e.r[2], 21) # Bit(e.r[1], 21) /\ Bit(e.r[3], 21) = Bit(e.r[1], 21)
       [] e.op = "mxcsr_rt" -> e.got = e.v /\ e.ind = e.v
+      [] e.op = "mxcsr_upd" -> e.got = e.v /\ e.seen = e.saved
       [] e.op = "port_eq" -> PortEqOK(e)
       [] e.op = "port_multi" -> PortMultiOK(e)
       [] e.op = "flush" -> OneInvlpg(e.instrs, e.addr)
@@ -282,6 +289,8 @@ Check(e) ==
       [] e.op = "flush_pcid" -> InvpcidOK(e.kind, e.pcid, e.addr, e.instrs)
       [] e.op = "tlbsync" -> Len(e.instrs) = 1 /\ e.instrs[1].m = "tlbsync"
       [] e.op = "invlpgb_flush" -> BroadcastOK(e, e.instrs)
+      [] e.op = "invlpgb_all" -> BroadcastAllOK(e, e.instrs)
+      [] e.op = "invlpgb_caps" -> e.got = << e.count_max, e.nested, e.nasid >>
       [] OTHER -> FALSE
 
 Init == l = 1 /\ bad = 0 /\ ifl = 1 /\ stack = << >> /\ reg = << >>
